@@ -195,11 +195,11 @@ JoinCmd == /\ "join" \in Faults
 HInstr(n) ==
     {[i |-> "dlv", id |-> n, flags |-> f] : f \in 0..3}
     \cup {[i |-> "dlm", id |-> n, flags |-> f] : f \in 0..3}
-    \cup {[i |-> "dlset", v |-> n]}
+    \cup {[i |-> "dlset", v |-> n, w |-> w] : w \in 1..3}      \* (w: a weight, no meaning)
     \cup {[i |-> "dlmu", key |-> key, v |-> n] : key \in Keys}
     \cup {[i |-> "dlmr", key |-> key] : key \in Keys}
     \cup {[i |-> "dlmc"]}
-    \cup {[i |-> "dlclose", which |-> w] : w \in {"v", "m"}}
+    \cup {[i |-> "dlclose", which |-> w, w |-> x] : w \in {"v", "m"}, x \in 1..2}
     \cup {[i |-> "set", lane |-> "val", v |-> n]}
     \cup {[i |-> "upd", lane |-> "map", key |-> key, v |-> n] : key \in Keys}
 HostedCmd == /\ "hosted" \in Faults
@@ -211,24 +211,47 @@ HostedCmd == /\ "hosted" \in Faults
 
 \* the environment plays the remote lane of an opened downlink (sequences: the repetitions are weights), closes its
 \* channels, feeds it a frame it cannot decode, stops reading what it writes
-DlDo == <<"linked", "linked", "synced", "synced", "event", "event", "event", "event", "unlinked", "close", "fail", "outfail">>
-MapEv(n) == {[m |-> "upd", key |-> key, v |-> n] : key \in Keys} \cup {[m |-> "upd", key |-> key, v |-> n] : key \in Keys}
-            \cup {[m |-> "rem", key |-> key, v |-> 0] : key \in Keys} \cup {[m |-> "clr", key |-> 0, v |-> 0]}
-            \cup {[m |-> "take", key |-> 0, v |-> c] : c \in {1}} \cup {[m |-> "drop", key |-> 0, v |-> c] : c \in {1}}
+DlDo == <<"linked", "linked", "linked", "synced", "synced", "synced", "event", "event", "event", "event", "event", "event", "event", "event",
+          "unlinked", "close", "closein", "fail", "outfail">>
+\* (the map message is a function of the counter, not a choice: the number of successors of an environment step does
+\* not depend on the kind of the downlink, so that closing / failing a link is as likely for map downlinks as for others)
+MapEvAt(n) == LET K == CHOOSE sq \in [1..Cardinality(Keys) -> Keys] : \A a, b \in 1..Cardinality(Keys) : a < b => sq[a] < sq[b]
+                  k1 == K[1]  k2 == K[(1 % Cardinality(Keys)) + 1]  k3 == K[Cardinality(Keys)]
+                  sq == <<[m |-> "upd", key |-> k1, v |-> n], [m |-> "upd", key |-> k2, v |-> n], [m |-> "upd", key |-> k3, v |-> n],
+                          [m |-> "rem", key |-> k1, v |-> 0], [m |-> "upd", key |-> k1, v |-> n], [m |-> "clr", key |-> 0, v |-> 0],
+                          [m |-> "upd", key |-> k2, v |-> n], [m |-> "take", key |-> 0, v |-> 1], [m |-> "upd", key |-> k3, v |-> n],
+                          [m |-> "rem", key |-> k2, v |-> 0], [m |-> "upd", key |-> k1, v |-> n], [m |-> "drop", key |-> 0, v |-> 1],
+                          [m |-> "upd", key |-> k2, v |-> n], [m |-> "rem", key |-> k3, v |-> 0]>> IN
+              sq[(n % Len(sq)) + 1]
 DlEnv == /\ OpenedIds # {}
          /\ \E id \in OpenedIds : \E di \in 1..Len(DlDo) : \E ns \in NS :
               LET do == DlDo[di]  kd == KindOf(id) IN
               /\ (do = "outfail" => kd \in {"value", "map"})
               /\ IF do = "event" /\ kd \in {"map", "mapevent"}
-                   THEN \E ev \in MapEv(nv) :
+                   THEN LET ev == MapEvAt(nv) IN
                           Emit([k |-> "dl", id |-> id, do |-> do, m |-> ev.m, key |-> ev.key, v |-> ev.v, n |-> ev.v, nosettle |-> ns])
                    ELSE Emit([k |-> "dl", id |-> id, do |-> do, v |-> nv, nosettle |-> ns])
               /\ nv' = nv + 1 /\ UNCHANGED <<att, gone, restarts>>
 
+\* the beginning of a well-behaved link in one step: linked, an event, synced (back to back or one at a time)
+DlSeq == /\ OpenedIds # {}
+         /\ \E id \in OpenedIds : \E key \in Keys : \E ns \in NS :
+              LET ev == IF KindOf(id) \in {"map", "mapevent"}
+                          THEN [k |-> "dl", id |-> id, do |-> "event", m |-> "upd", key |-> key, v |-> nv, n |-> nv, nosettle |-> ns]
+                          ELSE [k |-> "dl", id |-> id, do |-> "event", v |-> nv, nosettle |-> ns] IN
+              /\ script' = script \o <<[k |-> "dl", id |-> id, do |-> "linked", v |-> nv, nosettle |-> ns], ev,
+                                        [k |-> "dl", id |-> id, do |-> "synced", v |-> nv, nosettle |-> FALSE]>>
+              /\ nv' = nv + 1 /\ UNCHANGED <<att, gone, restarts>>
+
 \* how the requests of the agent for a downlink are answered from now on (id 0: every downlink without a policy of its own)
 DlOpen == /\ JLanes # {} \/ "hosted" \in Faults
-          /\ \E id \in OpenedIds \cup {0} : \E hi \in 1..6 :
-               /\ Emit([k |-> "dlopen", id |-> id, how |-> <<"ok", "ok", "ok", "refuse", "fatal", "delay">>[hi]])
+          /\ \E id \in OpenedIds \cup {0} : \E hi \in 1..8 :
+               /\ Emit([k |-> "dlopen", id |-> id, how |-> <<"ok", "ok", "ok", "ok", "refuse", "refuse", "fatal", "delay">>[hi]])
+               /\ UNCHANGED <<att, gone, nv, restarts>>
+
+DlOpen0 == /\ JLanes # {} \/ "hosted" \in Faults
+           /\ \E hi \in 1..6 :
+               /\ Emit([k |-> "dlopen", id |-> 0, how |-> <<"ok", "ok", "ok", "refuse", "fatal", "delay">>[hi]])
                /\ UNCHANGED <<att, gone, nv, restarts>>
 
 DlRead == /\ Emit([k |-> "dlread"]) /\ UNCHANGED <<att, gone, nv, restarts>>
@@ -261,7 +284,7 @@ Kinds == {"attach", "proto1", "proto2", "proto3", "set1", "set2", "map1", "map2"
           \* generated for the other profiles are what they were)
           "dproto1", "dproto2", "dcmd1", "dcmd2", "dcmd3", "http1", "http2", "http3",
           \* (likewise "join" / "hosted")
-          "jproto1", "jcmd1", "jcmd2", "hcmd1", "hcmd2", "dlenv1", "dlenv2", "dlenv3", "dlenv4", "dlenv5", "dlopen1", "dlread1"}
+          "jproto1", "jcmd1", "jcmd2", "hcmd1", "hcmd2", "dlenv1", "dlenv2", "dlenv3", "dlenv4", "dlenv5", "dlopen1", "dlread1", "dlseq1", "dlseq2", "dlopen0"}
 
 Can(kd) ==
     CASE kd = "attach" -> att # Remotes
@@ -283,7 +306,8 @@ Can(kd) ==
       [] kd \in {"jcmd1", "jcmd2"} -> Live # {} /\ "join" \in Faults
       [] kd \in {"hcmd1", "hcmd2"} -> Live # {} /\ "hosted" \in Faults
       [] kd \in {"dlenv1", "dlenv2", "dlenv3", "dlenv4", "dlenv5"} -> Faults \cap {"join", "hosted"} # {} /\ OpenedIds # {}
-      [] kd = "dlopen1" -> Faults \cap {"join", "hosted"} # {}
+      [] kd \in {"dlseq1", "dlseq2"} -> Faults \cap {"join", "hosted"} # {} /\ OpenedIds # {}
+      [] kd \in {"dlopen1", "dlopen0"} -> Faults \cap {"join", "hosted"} # {} /\ Live # {}
       [] kd = "dlread1" -> "hosted" \in Faults /\ OpenedIds # {}
 
 Do(kd) ==
@@ -306,7 +330,9 @@ Do(kd) ==
       [] kd \in {"jcmd1", "jcmd2"} -> JoinCmd
       [] kd \in {"hcmd1", "hcmd2"} -> HostedCmd
       [] kd \in {"dlenv1", "dlenv2", "dlenv3", "dlenv4", "dlenv5"} -> DlEnv
+      [] kd \in {"dlseq1", "dlseq2"} -> DlSeq
       [] kd = "dlopen1" -> DlOpen
+      [] kd = "dlopen0" -> DlOpen0
       [] kd = "dlread1" -> DlRead
 
 Pick == /\ kind = "none" /\ Len(script) < MaxLen
